@@ -33,6 +33,33 @@ Theorem key_order_kept : forall (L : Type) (quant : L -> L) d,
 Proof. exact key_order_kept_lemma. Qed.
 Print Assumptions key_order_kept.
 
+(* 1b. exact leaf codec (pickle keeps every value bit for bit: quant = identity): nothing changes but the dropped
+   `_` keys.  Instance of [roundtrip]; pickle's own container (dict(net) through pandapower) is an oracle covered by
+   the differential with bit-exact comparison *)
+Theorem roundtrip_exact_leaf_codec : forall (L E : Type) (lenc : L -> E) (ldec : E -> option L) (quant : L -> L)
+    (known_component : string -> bool),
+  (forall v, ldec (lenc v) = Some (quant v)) -> (forall v, quant v = v) ->
+  forall d, wf_doc L known_component d = true ->
+  decode L E ldec known_component (encode L E lenc d) = Some (strip_internal L d).
+Proof. exact roundtrip_exact_lemma. Qed.
+Print Assumptions roundtrip_exact_leaf_codec.
+
+(* 1c. multi-energy nets: member pandapipes nets go through this layer, member pandapower nets and the controller
+   table (with its controller objects) through pandapower's; member names and order are kept, `_` keys dropped *)
+Theorem multinet_roundtrip : forall (L E : Type) (lenc : L -> E) (ldec : E -> option L) (quant : L -> L)
+    (known_component : string -> bool),
+  (forall v, ldec (lenc v) = Some (quant v)) ->
+  forall d, wf_mdoc L known_component d = true ->
+  decode_multi L E ldec known_component (encode_multi L E lenc d) =
+  Some (map (on_snd (q_mvalue L quant)) (mstrip L d)).
+Proof. exact multinet_roundtrip_lemma. Qed.
+Print Assumptions multinet_roundtrip.
+
+Theorem multinet_member_names_kept : forall (L : Type) (quant : L -> L) (ns : list (string * member L)),
+  map fst (map (on_snd (q_member L quant)) ns) = map fst ns.
+Proof. exact multinet_member_names_kept_lemma. Qed.
+Print Assumptions multinet_member_names_kept.
+
 (* 2. saving what was loaded reproduces the same JSON document (what the tie checks byte for byte) *)
 Theorem idempotent_save : forall (L E : Type) (lenc : L -> E) (quant : L -> L),
   (forall v, lenc (quant v) = lenc v) ->
@@ -182,3 +209,19 @@ Example ex_roundtrip :
   = Some (map_leaves string ex_quant (strip_internal string ex_doc))
   /\ length (strip_internal string ex_doc) = 4.
 Proof. split; reflexivity. Qed.
+
+(* a multinet with a pandapipes member (with an internal key), a pandapower member and a controller table *)
+Definition ex_mdoc : mdoc string :=
+  [("name", MVLeaf string "mn"); ("_internal", MVLeaf string "x"); ("controller", MVLeaf string "table with P2G controller");
+   ("nets", MVNets string [("gas", MPipes string ex_doc); ("power", MPower string "pandapower net")])].
+Example ex_multinet_roundtrip :
+  wf_mdoc string (fun _ => true) ex_mdoc = true /\
+  decode_multi string string (fun e => Some (ex_quant e)) (fun _ => true) (encode_multi string string (fun v => v) ex_mdoc)
+  = Some (map (on_snd (q_mvalue string ex_quant)) (mstrip string ex_mdoc)).
+Proof. split; reflexivity. Qed.
+Example ex_exact : decode string string (fun e => Some e) (fun _ => true) (encode string string (fun v => v) ex_doc)
+                   = Some (strip_internal string ex_doc).
+Proof. reflexivity. Qed.
+Example ex_convert_every_sector :
+  has_key string "sector" (ex_doc ++ [("sector", VLeaf string "heat")]) = true.
+Proof. reflexivity. Qed.
